@@ -429,7 +429,43 @@ fn subsets<T: Clone>(xs: &[T]) -> Vec<Vec<T>> {
 }
 
 /// C11 - SSKR
+/// the public, randomised entry points (`sskr_split`, `sskr_split_flattened`) called again and again on one envelope with one
+/// content key under policies of the same shape but different thresholds: every split answers to its own policy
+fn c11_resplit(c: &mut Ctx, b: &Budget) {
+    let series: Vec<Vec<(usize, Vec<(usize, usize)>)>> = vec![
+        vec![(1, vec![(2, 3)]), (1, vec![(3, 3)]), (1, vec![(1, 3)]), (1, vec![(2, 3)])],
+        vec![(2, vec![(1, 2), (2, 2)]), (1, vec![(1, 2), (2, 2)]), (2, vec![(2, 2), (1, 2)])],
+    ];
+    for (si, policies) in series.iter().enumerate() {
+        if si == 1 && !b.thorough && c.rng.chance(1, 2) { continue; }
+        c.begin("sskr-resplit");
+        let e = base_envelope(c, 1).wrap_envelope();
+        let ck = SymmetricKey::new();
+        let enc = e.encrypt_subject(&ck).unwrap();
+        for (k, (gt, groups)) in policies.iter().enumerate() {
+            let spec = SSKRSpec::new(*gt, groups.iter().map(|(t, n)| SSKRGroupSpec::new(*t, *n).unwrap()).collect()).unwrap();
+            let shares: Vec<Vec<Envelope>> = if k % 2 == 0 { match guarded(|| enc.sskr_split(&spec, &ck)) { Ok(Ok(s)) => s, _ => { c.check("split", false, "split", || "sskr_split failed".into()); continue; } } }
+                else { // the flattened form, regrouped by the policy's member counts
+                    match guarded(|| enc.sskr_split_flattened(&spec, &ck)) { Ok(Ok(f)) => { let mut it = f.into_iter(); groups.iter().map(|(_, n)| (0..*n).filter_map(|_| it.next()).collect()).collect() } _ => { c.check("split", false, "split", || "sskr_split_flattened failed".into()); continue; } } };
+            let flat: Vec<(usize, usize, Envelope)> = shares.iter().enumerate().flat_map(|(g, v)| v.iter().enumerate().map(move |(m, s)| (g, m, s.clone()))).collect();
+            c.check("share-count", flat.len() == groups.iter().map(|g| g.1).sum::<usize>(), "share-count", || format!("{} shares", flat.len()));
+            for sub in subsets(&flat) {
+                let quorum = groups.iter().enumerate().filter(|(g, (t, _))| sub.iter().filter(|(gg, _, _)| gg == g).count() >= *t).count() >= *gt;
+                let refs: Vec<&Envelope> = sub.iter().map(|x| &x.2).collect();
+                match guarded(|| Envelope::sskr_join(&refs)) {
+                    Ok(Ok(j)) => c.check("join-iff-quorum", quorum && j.is_identical_to(&e), if quorum { "join-wrong-envelope" } else { "join-without-quorum" }, || format!("split no. {} of one key, policy {}-of-{:?}, subset {:?} joined", k + 1, gt, groups, sub.iter().map(|x| (x.0, x.1)).collect::<Vec<_>>())),
+                    Ok(Err(_)) => c.check("join-iff-quorum", !quorum, "join-fails-with-quorum", || format!("split no. {} of one key, policy {}-of-{:?}, subset {:?} refused", k + 1, gt, groups, sub.iter().map(|x| (x.0, x.1)).collect::<Vec<_>>())),
+                    Err(site) => c.check("join-no-panic", false, "join-panic", || site),
+                }
+            }
+            c.count("branch:resplit");
+        }
+        c.end();
+    }
+}
+
 pub fn c11(c: &mut Ctx, b: &Budget) {
+    c11_resplit(c, b);
     let policies: Vec<(usize, Vec<(usize, usize)>)> = if b.thorough {
         vec![(1, vec![(1, 1)]), (1, vec![(2, 3)]), (1, vec![(3, 4)]), (2, vec![(1, 2), (2, 3)]), (2, vec![(2, 3), (2, 3), (1, 1)]), (1, vec![(2, 2), (3, 4)]), (3, vec![(1, 1), (2, 2), (2, 3)]), (2, vec![(2, 4), (3, 4), (1, 2)]), (2, vec![(2, 3), (3, 5)])]
     } else { vec![(1, vec![(1, 1)]), (1, vec![(2, 3)]), (2, vec![(1, 2), (2, 3)]), (2, vec![(2, 3), (2, 3), (1, 1)]), (1, vec![(2, 2), (3, 4)]), (2, vec![(3, 4), (2, 3)])] };
@@ -615,6 +651,17 @@ pub fn c18(c: &mut Ctx, b: &Budget) {
         let other_f = Function::from("another");
         let r = Expression::try_from((env.clone(), Some(&other_f)));
         c.check("rejects-other-function", r.is_err() || f == other_f, "accepts-other-function", || shape(&env));
+        // the verdict may not depend on what was parsed before: accepted without an expectation, accepted with the right one, then
+        // presented with a wrong one (the very same envelope, and a freshly decoded copy)
+        for again in [env.clone(), through_bytes(&env)] {
+            let _ = Expression::try_from(again.clone());
+            let _ = Expression::try_from((again.clone(), Some(&f)));
+            for wrong in [Function::from("another"), Function::from(9999u64), if i % 2 == 0 { Function::from(FN_NAMES[(i / 2) % FN_NAMES.len()]) } else { Function::from((i as u64 % 7) + 1) }] {
+                if wrong == f { continue; }
+                let r = Expression::try_from((again.clone(), Some(&wrong)));
+                c.check("rejects-other-function", r.is_err(), "accepts-other-function", || format!("after earlier successful parses, expected {:?} accepted for {}", wrong, shape(&again)));
+            }
+        }
         // request
         let id = ARID::from_data_ref(c.rng.bytes(32)).unwrap();
         let mut req = Request::new_with_body(ex.clone(), id);
@@ -645,6 +692,10 @@ pub fn c18(c: &mut Ctx, b: &Budget) {
         // responses
         let result = base_envelope(c, 1);
         let variants: Vec<(&str, Response)> = vec![("success-ok", Response::new_success(id)), ("success", Response::new_success(id).with_result(result.clone())),
+            ("success-null", Response::new_success(id).with_result(Envelope::null())), ("success-none", Response::new_success(id).with_optional_result(None::<String>)),
+            ("success-false", Response::new_success(id).with_result(false)), ("success-zero", Response::new_success(id).with_result(0)), ("success-empty", Response::new_success(id).with_result("")),
+            ("success-null-decorated", Response::new_success(id).with_result(Envelope::null().add_assertion("why", "nothing"))), ("failure-null", Response::new_failure(id).with_error(Envelope::null())),
+            ("failure-none", Response::new_failure(id).with_optional_error(None::<String>)), ("success-unknown-kv", Response::new_success(id).with_result(known_values::UNKNOWN_VALUE)),
             ("failure", Response::new_failure(id).with_error("boom")), ("failure-default", Response::new_failure(id)), ("early-failure", Response::new_early_failure()), ("early-failure-msg", Response::new_early_failure().with_error(result.clone()))];
         for (name, resp) in &variants {
             let venv: Envelope = resp.clone().into();
